@@ -5,6 +5,7 @@ import (
 	"fmt"
 	"sort"
 
+	"github.com/taurusgroup/multi-party-sig/pkg/ecdsa"
 	"github.com/taurusgroup/multi-party-sig/pkg/party"
 	"github.com/taurusgroup/multi-party-sig/pkg/protocol"
 	"github.com/taurusgroup/multi-party-sig/verif/fw"
@@ -99,6 +100,10 @@ func runC06(c *fw.Ctx) {
 	}
 	source := "forked-twin"
 	fieldSub := c.S.Draw(5, "equiv-source") == 4
+	// resend: G2 is first handed the SAME round-k broadcast as G1 and then, while it may still be in
+	// round k, the twin's different one ("sorry, resending"); the twin goes on talking to G2 and
+	// quotes the view hash of the first version. A party must go on with what it hashed.
+	resend := !fieldSub && c.S.Draw(3, "equiv-resend") == 2
 	// partition of the honest parties
 	g2 := map[party.ID]bool{}
 	for {
@@ -146,7 +151,7 @@ func runC06(c *fw.Ctx) {
 				if t == from || !m.IsFor(t.ID) {
 					continue
 				}
-				if from == A && g2[t.ID] {
+				if from == A && g2[t.ID] && !(resend && m.Broadcast && int(m.RoundNumber) == k) {
 					continue
 				}
 				if from == A2 && !g2[t.ID] {
@@ -157,9 +162,15 @@ func runC06(c *fw.Ctx) {
 			return out
 		}
 		var sentA = map[string][]byte{}
+		bvA := map[int][]byte{}                   // view hashes quoted by A, per round
+		firstSeen := map[party.ID]bool{}          // resend: G2 member already holds A's round-k broadcast
+		heldY := map[party.ID]*protocol.Message{} // resend: the twin's version, waiting for that
 		ex.Net.Mutate = func(from *sim.Node, m *protocol.Message, to *sim.Node) *protocol.Message {
 			if m.RoundNumber == 0 {
 				return nil // a real attacker does not announce itself
+			}
+			if from == A && m.BroadcastVerification != nil {
+				bvA[int(m.RoundNumber)] = m.BroadcastVerification
 			}
 			if m.Broadcast && int(m.RoundNumber) == k {
 				if from == A {
@@ -167,8 +178,40 @@ func runC06(c *fw.Ctx) {
 				} else if d, ok := sentA[mkey(m)]; ok && !bytes.Equal(d, m.Data) {
 					applied = true
 				}
+				if resend && from == A2 && !firstSeen[to.ID] {
+					heldY[to.ID] = m // released by AfterDeliver once the first version has arrived
+					return nil
+				}
 			}
 			return m
+		}
+		if resend {
+			source = "forked-twin-resend"
+			ex.Net.AfterDeliver = func(e *sim.Env, to *sim.Node) {
+				if e.From == cheater && e.Bcast && e.Round == k && g2[to.ID] && !firstSeen[to.ID] {
+					firstSeen[to.ID] = true
+					if y := heldY[to.ID]; y != nil {
+						delete(heldY, to.ID)
+						ex.Net.Enqueue(A2, y, to, "tamper")
+						c.Probe("resend_second_version_enqueued", 1)
+					}
+				}
+			}
+			ex.Net.BeforeDeliver = func(e *sim.Env, to *sim.Node) bool {
+				// the twin quotes the view hash that belongs to the first version
+				if e.From == cheater && g2[to.ID] && e.Round > k {
+					if bv, ok := bvA[e.Round]; ok {
+						if m, err := e.DecodeE(); err == nil && m.BroadcastVerification != nil && !bytes.Equal(m.BroadcastVerification, bv) {
+							m.BroadcastVerification = bv
+							if b, err := m.MarshalBinary(); err == nil {
+								e.Bytes = b
+								c.Probe("resend_viewhash_of_first_version_quoted", 1)
+							}
+						}
+					}
+				}
+				return true
+			}
 		}
 	} else {
 		source = "field-substitution"
@@ -268,7 +311,8 @@ func runC06(c *fw.Ctx) {
 			a = id
 		}
 	}
-	if a != "" && b != "" {
+	// (in resend mode G2 was handed the same first version as G1: only the outcome comparison applies)
+	if a != "" && b != "" && !resend {
 		c.Violate(fmt.Sprintf("split/%s/%s/r%d/%s", sc.Proto, sc.Kind, k, source), "honest parties %q and %q received different round-%d broadcasts from %q and BOTH completed with a value (%s)", a, b, k, cheater, c.Res.Desc)
 	}
 	for i := 1; i < len(fin); i++ {
@@ -278,6 +322,39 @@ func runC06(c *fw.Ctx) {
 			}
 		}
 	}
+	// whatever was delivered in whichever order: honest finishers of one session hold one public outcome
+	for i := 1; i < len(fin); i++ {
+		v0, _ := ex.Nodes[fin[0]].H.Result()
+		v1, _ := ex.Nodes[fin[i]].H.Result()
+		if p0, p1 := publicOutcome(sc.Proto, v0), publicOutcome(sc.Proto, v1); p0 != p1 {
+			c.Violate(fmt.Sprintf("split-results/%s/%s/r%d/%s", sc.Proto, sc.Kind, k, source), "honest parties %q and %q both completed the session in which %q equivocated in round %d and hold different public outcomes\n  %s\n  %s", fin[0], fin[i], cheater, k, trimS(p0, 300), trimS(p1, 300))
+			break
+		}
+	}
 	c.Probe(fmt.Sprintf("finishers_%d", len(fin)), 1)
 	c.Res.Sample = map[string]interface{}{"desc": c.Res.Desc, "honest_finishers": len(fin)}
+}
+
+// publicOutcome is the part of a session result that all honest finishers must share.
+func publicOutcome(p scen.Proto, v interface{}) string {
+	if _, ok := scen.ConfigDigest(p, v); ok {
+		m := &scen.Material{Proto: p, IDs: []party.ID{"x"}, Cfg: map[party.ID]interface{}{"x": v}}
+		out := fmt.Sprintf("Y=%x ck=%x t=%d", m.PublicKey("x").Compress(), m.ChainKey("x"), m.Threshold("x"))
+		ps := m.PubShares("x")
+		var ids []string
+		for id := range ps {
+			ids = append(ids, id)
+		}
+		sort.Strings(ids)
+		for _, id := range ids {
+			out += fmt.Sprintf(" %s=%x", id, ps[id].Compress())
+		}
+		return out + " " + m.AuxTable("x")
+	}
+	switch r := v.(type) {
+	case *ecdsa.PreSignature:
+		rb, _ := r.R.MarshalBinary()
+		return fmt.Sprintf("presig id=%x R=%x", []byte(r.ID), rb)
+	}
+	return fmt.Sprintf("%T %s", v, scen.ResultDigest(p, v))
 }
